@@ -127,7 +127,11 @@ def main(argv=None):
         if a.prop == "all":
             rc = 0
             for p in available():
-                rc = max(rc, check(p, a.repo, a.tier, seed))
+                try:
+                    rc = max(rc, check(p, a.repo, a.tier, seed))
+                except AnalysisError as e:           # one property that cannot be decided does not hide the verdicts of the others
+                    print("ANALYSIS-ERROR: %s: %s" % (p, e))
+                    rc = max(rc, 2)
             return rc
         if a.prop not in ALL_PROPS:
             print("ANALYSIS-ERROR: unknown property %r" % a.prop)
